@@ -215,7 +215,11 @@ CLAIMED.update({
          "otherwise exactly one of the three explicit encryption errors, no registered class is even tried; an error "
          "raised while a codec is active leaves as ciphertext with no clear args/kwargs; an encrypted EVENT invokes one "
          "handler per decode (as responder, with the envelope topic) that opened and names that topic, with the decrypted "
-         "kwargs, and the first bad decode ends the dispatch. Solver unknowns on the KeyRing units are handed to a replay "
+         "kwargs, and the first bad decode ends the dispatch; an encrypted RESULT completes its call successfully only "
+         "after one decode (as originator, with the procedure of that call) that opened and names the procedure -- "
+         "otherwise the call is rejected and a progressive result never reaches the progress handler; an encrypted "
+         "INVOCATION runs the endpoint exactly when such a decode (as responder) succeeded and otherwise sends exactly "
+         "one ERROR(INVOCATION) for the request and records nothing. Solver unknowns on the KeyRing units are handed to a replay "
          "with real NaCl keys (round trip, wrong key, tampering).",
     note="Trusted: z3, pyvc, NaCl Box (authenticated encryption: decrypt raises or opens; paired boxes invert each other), "
          "JSON round trip, pytrie longest-prefix lookup. Not covered: INVOCATION / RESULT / YIELD arms, publish()/call() "
